@@ -87,8 +87,9 @@ func (r *yieldingReader) Read(p []byte) (int, error) {
 }
 
 func (r *Run) snapViolation(sig, format string, args ...any) {
-	r.violate(Violation{Props: []string{"C17"}, Oracle: "snapshot", Sig: sig, Detail: fmt.Sprintf(format, args...)})
-	panic(abortSig{})
+	if r.violate(Violation{Props: []string{"C17"}, Oracle: "snapshot", Sig: sig, Detail: fmt.Sprintf(format, args...)}) {
+		panic(abortSig{})
+	}
 }
 
 func (r *Run) execSnapshot(t *Task, idx int, tx *TxPlan) {
